@@ -177,6 +177,8 @@ def dec_data(d):
         return None
     if d["t"] == "tuple":
         return (0,) * int(d["n"])
+    if d["t"] == "list":
+        return [0] * int(d["n"])
     return "s" * int(d["n"])
 
 
@@ -191,6 +193,8 @@ def enc_data(x):
         return {"t": "str", "n": len(x)}
     if isinstance(x, tuple):
         return {"t": "tuple", "n": len(x)}
+    if isinstance(x, list):
+        return {"t": "list", "n": len(x)}
     raise ValueError("cannot encode data %r" % (x,))
 
 
@@ -199,6 +203,9 @@ DuckPair = __import__("collections").namedtuple("DuckPair", "data context")
 
 def dec_val(v):
     sub = v.get("sub", "")
+    if sub == "raw":                                # the object as written: a tuple / list of data and context items
+        items = [dec_ctx(i) if "k" in i else dec_data(i) for i in v["raw"]["items"]]
+        return tuple(items) if v["raw"]["kind"] == "tuple" else list(items)
     if sub == "listpair":
         return [1, {"a": {}}]                       # a list, not a (data, context) pair
     if sub == "duck":                               # tuple subclass holding a dict subclass
@@ -418,7 +425,9 @@ def str_leaves(ast, acc=None):
 
 
 def random_val(rnd):
-    data = rnd.choice([1, -1, 0, 7, True, False, "", "s", "ss", None, None, (), (0,)])
+    # (bare data that looks like a (data, context) pair but is not one: two items, the second not a dict)
+    data = rnd.choice([1, -1, 0, 7, True, False, "", "s", "ss", None, None, (), (0,),
+                       (1, 2), (1, "s"), ("s", None), (1, [0]), (1, {}, 2), [1, 2], [1, {}]])
     if rnd.random() < 0.15:
         return data
     return (data, random_ctx(rnd))
